@@ -45,9 +45,8 @@ class ColumnLineageMixin:
                     path = [
                         node for node in path if not isinstance(node.parent, SubQuery)
                     ]
-                    if len(path) > 1:
-                        columns.add(tuple(path))
-                else:
+                if len(path) > 1:
+                    # a lone column (e.g. from a column definition list) is not a lineage path
                     columns.add(tuple(path))
         return columns
 
